@@ -63,6 +63,8 @@ pub struct Opts {
     pub encryption: bool,
     /// route a share of the administrator's catalogue commands over HTTP
     pub http_arm: bool,
+    /// disk faults are injected while sends, flushes and background saves run
+    pub disk_faults: bool,
 }
 
 /// The SDK's `HttpClient` reports a refusal as `HttpResponseError(status, body)`; the body carries the same
@@ -650,6 +652,10 @@ impl Harness {
         let mut messages: Vec<Message> = msgs.iter().map(|m| m.to_message()).collect();
         let lo = self.sim.now_micros();
         let seq0 = self.sim.steps();
+        let fired_before = self.sim.inner.fs.borrow().fired.len();
+        if self.opts.disk_faults {
+            self.sim.arm_faults(true);
+        }
         let result = if self.route_http(c) {
             self.stats.probe("request_via_http");
             self.stats.probe("send_via_http");
@@ -662,6 +668,17 @@ impl Harness {
             self.sim.settle().await;
         }
         let hi = self.sim.now_micros();
+        if self.opts.disk_faults {
+            self.sim.arm_faults(false);
+            if self.sim.inner.fs.borrow().fired.len() > fired_before {
+                // a disk fault hit this send (or the background work it started): judged by the relaxed rule
+                self.stats.probe("send_hit_by_disk_fault");
+                if let Some((sid, tid)) = ids {
+                    self.resync_after_disk_fault(sid, tid, Some((msgs, part, ok(&result), lo, hi, (seq0, seq1)))).await;
+                }
+                return;
+            }
+        }
         if !self.perm_gate("send_messages", result.is_ok(), result.as_ref().err()) {
             return;
         }
@@ -837,6 +854,99 @@ impl Harness {
                     self.violate("C15", "refused_send_changes_nothing", "stored_after_topic_full", format!("refused send left messages in partition {p}"));
                 }
             }
+        }
+    }
+
+    /// After an operation that an injected disk error hit, the comparison is relaxed deliberately and narrowly
+    /// (the fault-free runs keep the exact oracles): the operation may have failed, and the messages of a send
+    /// that was *not acknowledged* may be stored completely, partly (a prefix, in order) or not at all. What
+    /// still has to hold: every message acknowledged before is still served unchanged at its offset, offsets stay
+    /// consecutive, an acknowledged send is stored completely, nothing foreign appears, and the reported current
+    /// offset is the last served one. The model then adopts what the partition holds.
+    #[allow(clippy::type_complexity)]
+    async fn resync_after_disk_fault(&mut self, sid: u32, tid: u32, sent: Option<(&[MsgSpec], &Part, bool, u64, u64, (u64, u64))>) {
+        self.sim.settle().await;
+        let Some(topic) = self.model.streams.get(&sid).and_then(|s| s.topics.get(&tid)).cloned() else { return };
+        let target: Option<u32> = match sent {
+            Some((_, Part::Id(p), ..)) => Some(*p),
+            _ => None,
+        };
+        for (pid, pm) in &topic.partitions {
+            if pm.tainted {
+                continue;
+            }
+            let from = pm.first_retained;
+            let Some(client) = self.client(0) else { return };
+            let polled = client.poll_messages(&IdRef::Num(sid).to_identifier(), &IdRef::Num(tid).to_identifier(), Some(*pid), &Consumer::default(), &PollingStrategy::offset(from), pm.msgs.len() as u32 + 1000, false).await;
+            let polled = match polled {
+                Ok(p) => p,
+                Err(e) => {
+                    self.violate("C02", "readable_after_disk_error", "poll_error@disk_fault", format!("partition {sid}/{tid}/{pid} cannot be read after an operation hit by a disk error: {e:?}"));
+                    self.mark_tainted(sid, tid);
+                    return;
+                }
+            };
+            let offsets: Vec<u64> = polled.messages.iter().map(|m| m.offset).collect();
+            let consecutive = offsets.iter().enumerate().all(|(i, o)| *o == from + i as u64);
+            if !consecutive {
+                self.violate("C01", "full_read_unique_ordered", "gap_or_repeat@disk_fault", format!("partition {sid}/{tid}/{pid} after a disk error serves {}", brief(&offsets)));
+                self.mark_tainted(sid, tid);
+                return;
+            }
+            // everything acknowledged before is still there, unchanged
+            let known = pm.msgs.len() as u64 - from.min(pm.msgs.len() as u64);
+            if (polled.messages.len() as u64) < known {
+                self.violate("C02", "acknowledged_survive_disk_error", "acknowledged_messages_lost@disk_fault", format!("partition {sid}/{tid}/{pid} held offsets {from}..={} (all acknowledged); after an operation hit by a disk error it serves {}", pm.msgs.len().saturating_sub(1), brief(&offsets)));
+                self.mark_tainted(sid, tid);
+                return;
+            }
+            let mut altered = false;
+            for m in polled.messages.iter().take(known as usize) {
+                let mm = &pm.msgs[m.offset as usize];
+                if (mm.id_known && mm.id != m.id) || mm.payload != m.payload.as_ref() {
+                    altered = true;
+                    self.violate("C02", "content", "altered@disk_fault", format!("partition {sid}/{tid}/{pid} offset {}: acknowledged message changed after a disk error (id {} vs {})", m.offset, m.id, mm.id));
+                    break;
+                }
+            }
+            if altered {
+                self.mark_tainted(sid, tid);
+                return;
+            }
+            // what is new: only messages of the send in question, in order, as a prefix
+            let extras: Vec<&iggy::models::messages::PolledMessage> = polled.messages.iter().skip(known as usize).collect();
+            let allowed: &[MsgSpec] = match (&sent, target) {
+                (Some((msgs, ..)), Some(p)) if p == *pid => msgs,
+                // not addressed to an explicit partition: any partition may have received (a prefix of) it
+                (Some((msgs, ..)), None) => msgs,
+                _ => &[],
+            };
+            let prefix_ok = extras.len() <= allowed.len() && extras.iter().zip(allowed.iter()).all(|(got, want)| (want.id == 0 || got.id == want.id) && got.payload.as_ref() == want.payload().as_slice());
+            if !prefix_ok {
+                self.violate("C01", "nothing_foreign_after_disk_error", "unexpected_messages@disk_fault", format!("partition {sid}/{tid}/{pid}: after an operation hit by a disk error {} new messages appeared that are not a prefix of the send in question ({} sent)", extras.len(), allowed.len()));
+                self.mark_tainted(sid, tid);
+                return;
+            }
+            if let (Some((msgs, _, true, ..)), Some(p)) = (&sent, target) {
+                if p == *pid && extras.len() < msgs.len() {
+                    self.violate("C02", "acknowledged_survive_disk_error", "acknowledged_send_incomplete@disk_fault", format!("partition {sid}/{tid}/{pid}: a send of {} messages was acknowledged although a disk error hit it; {} of them are stored", msgs.len(), extras.len()));
+                }
+            }
+            if !polled.messages.is_empty() && polled.current_offset != *offsets.last().unwrap() {
+                self.violate("C01", "current_offset", "differs_from_last_served@disk_fault", format!("partition {sid}/{tid}/{pid} reports current offset {} and serves up to {}", polled.current_offset, offsets.last().unwrap()));
+            }
+            // adopt
+            if !extras.is_empty() {
+                if let Some((msgs, _, _, lo, hi, seq)) = &sent {
+                    let n = extras.len();
+                    self.model_append(sid, tid, *pid, &msgs[..n], *lo, *hi, *seq);
+                    self.stats.probe("partial_or_full_effect_of_faulted_send_adopted");
+                }
+            }
+        }
+        // a send that was not addressed to an explicit partition: where its messages went is not tracked here
+        if matches!(sent, Some((_, part, ..)) if !matches!(part, Part::Id(_))) {
+            self.mark_tainted(sid, tid);
         }
     }
 
@@ -1126,8 +1236,23 @@ impl Harness {
         if !self.session_ready(c) {
             return;
         }
+        let fired_before = self.sim.inner.fs.borrow().fired.len();
+        if self.opts.disk_faults {
+            self.sim.arm_faults(true);
+        }
         let client = self.client(c).unwrap();
         let result = client.flush_unsaved_buffer(&stream.to_identifier(), &topic.to_identifier(), partition, fsync).await;
+        if self.opts.disk_faults {
+            self.sim.settle().await;
+            self.sim.arm_faults(false);
+            if self.sim.inner.fs.borrow().fired.len() > fired_before {
+                self.stats.probe("flush_hit_by_disk_fault");
+                if let Some((sid, tid)) = self.model.topic_ids(stream, topic) {
+                    self.resync_after_disk_fault(sid, tid, None).await;
+                }
+                return;
+            }
+        }
         if !self.perm_gate("flush_unsaved_buffer", result.is_ok(), result.as_ref().err()) {
             return;
         }
@@ -1318,6 +1443,20 @@ impl Harness {
         }
         match job {
             Job::Maintain => crate::harness_ret::maintain_pass(self).await,
+            Job::Save if self.opts.disk_faults => {
+                let fired_before = self.sim.inner.fs.borrow().fired.len();
+                self.sim.arm_faults(true);
+                self.world.run_job(job).await;
+                self.sim.settle().await;
+                self.sim.arm_faults(false);
+                if self.sim.inner.fs.borrow().fired.len() > fired_before {
+                    self.stats.probe("save_hit_by_disk_fault");
+                    let topics: Vec<(u32, u32)> = self.model.streams.values().flat_map(|s| s.topics.keys().map(move |t| (s.id, *t))).collect();
+                    for (sid, tid) in topics {
+                        self.resync_after_disk_fault(sid, tid, None).await;
+                    }
+                }
+            }
             _ => {
                 self.world.run_job(job).await;
                 if job == Job::VerifyHeartbeats || job == Job::CleanTokens {
